@@ -141,6 +141,9 @@ def draw_program(draw):
             nv += 1
         elif k == 4:
             main.append(["val", draw(st.integers(0, nv - 1))])
+        elif k == 6 and nv > 1 and draw(st.integers(0, 5)) == 0:
+            # the proving step is run by hand in the middle of the script (and again at exit, over the whole trace)
+            main.append(["prove"])
         elif k == 7 and draw(st.integers(0, 5)) == 0:
             # a sub-circuit call inside a region guarded by a secret condition of the CALLER (value 0 or 1); the body asserts
             # something that holds for the live call and fails for the dead one
@@ -248,6 +251,8 @@ def render(prog):
             v.append(nm)
         elif s[0] == "val":
             L.append("%s.val()" % v[s[1]])
+        elif s[0] == "prove":
+            L.append("try:\n    qb.prove()\nexcept Exception as e_:\n    print('early prove:', type(e_).__name__, e_, file=sys.stderr)")
         elif s[0] == "gcall":
             L.append("rt.guarded(PrivVal(%d))(lambda: chk_zero(%s - %s + %d))()" % (s[2], v[s[1]], v[s[1]], 0 if s[2] else 3))
         else:
@@ -503,6 +508,8 @@ def shard(seed, n_examples):
                 labels.append("mixed-contexts-refused")
             if info.get("guarded_call"):
                 labels.append("sub-circuit-call-under-a-guard-of-the-caller")
+            if any(s_[0] == "prove" for s_ in prog["main"]):
+                labels.append("proving-step-run-twice")
             if info["after_last_pub"]:
                 labels.append("constraint-after-last-public-value")
             stats.case(prog if nt else None, nt, labels)
